@@ -228,6 +228,23 @@ pub fn char_kinds(s: &str) -> Vec<(char, String)> {
         .collect()
 }
 
+/// The style `comment_style` assigns to a comment and whether that style is a doc
+/// comment's (spec/CommentKind.tla).
+pub fn comment_style_name(comment: &str, normalize_comments: bool) -> (&'static str, bool) {
+    use crate::comment::CommentStyle;
+    let style = crate::comment::comment_style(comment, normalize_comments);
+    let name = match style {
+        CommentStyle::DoubleSlash => "DoubleSlash",
+        CommentStyle::TripleSlash => "TripleSlash",
+        CommentStyle::Doc => "Doc",
+        CommentStyle::SingleBullet => "SingleBullet",
+        CommentStyle::DoubleBullet => "DoubleBullet",
+        CommentStyle::Exclamation => "Exclamation",
+        CommentStyle::Custom(_) => "Custom",
+    };
+    (name, style.is_doc_comment())
+}
+
 /// The line scanner on an arbitrary text: returns the (possibly truncated)
 /// text and the `(line, kind)` entries it reported.
 pub fn format_lines(
